@@ -193,6 +193,7 @@ pub fn run(a: &RunArgs) -> i32 {
                 .arg("--cases").arg(pl.cases_per_worker.to_string())
                 .arg("--dir").arg(&edir)
                 .arg("--open").arg(open.join(","))
+                .arg("--soft").arg(std::env::var("MMV_SOFT_S").ok().and_then(|v| v.parse::<u64>().ok()).unwrap_or(pl.timeout_s * 45 / 100).to_string())
                 .stdout(Stdio::null())
                 .stderr(Stdio::from(std::fs::File::create(edir.join(format!("worker-{i}.stderr.log"))).expect("create log")))
                 .spawn()
@@ -351,6 +352,11 @@ pub fn run(a: &RunArgs) -> i32 {
     }
     for l in &known_lines {
         println!("{l}");
+    }
+    for m in &merged {
+        if let Some(n) = m.classes.get("generated_cases_not_run_because_the_time_budget_was_used_up") {
+            println!("NOTE: engine {}: the time budget of its workers was used up (slow or loaded machine); {} generated cases / enumeration steps were not run. The verdict covers what was explored.", m.engine, n);
+        }
     }
 
     // ---- evidence ------------------------------------------------------------------
